@@ -1160,30 +1160,30 @@ func (p *Program) inlineAt(cs *CallSite, cand *inlineCand, tag string, read func
 				return textEdit{}, false, true
 			}
 			dtext := deferredAt(x.Pos())
-			if contKind != "" && len(x.Results) == 0 && nres > 0 {
-				return textEdit{}, false, true // bare return of named results under a continuation: not supported
+			// the values returned: the expressions, or - a bare return - the named results
+			var resTexts []string
+			for _, r := range x.Results {
+				resTexts = append(resTexts, bodyEdits(r.Pos(), r.End(), nil))
+			}
+			bareNamed := len(x.Results) == 0 && nres > 0 && named
+			if bareNamed {
+				resTexts = append(resTexts, rnames...)
+			}
+			if len(x.Results) == 0 && nres > 0 && !named {
+				extraFail = true
+				return textEdit{}, false, true
 			}
 			if tail {
-				if len(x.Results) == 0 {
-					return textEdit{}, false, true // bare return with named results: not supported here
-				}
-				var parts []string
-				for _, r := range x.Results {
-					parts = append(parts, bodyEdits(r.Pos(), r.End(), nil))
-				}
-				return textEdit{off(dfile, x.Pos()), off(dfile, x.End()), "return " + strings.ReplaceAll(strings.Join(parts, ", "), "\n", " ")}, true, false
+				return textEdit{off(dfile, x.Pos()), off(dfile, x.End()), "return " + strings.ReplaceAll(strings.Join(resTexts, ", "), "\n", " ")}, true, false
 			}
-			if contKind != "" && len(x.Results) >= 1 && (len(x.Results) == 1 || contAssign) {
+			if contKind != "" && len(resTexts) >= 1 && (len(resTexts) == 1 || contAssign) {
 				then := string(csrc[off(cfile, contThen.Lbrace) : off(cfile, contThen.Rbrace)+1])
-				var parts []string
-				for _, r := range x.Results {
-					parts = append(parts, bodyEdits(r.Pos(), r.End(), nil))
-				}
+				parts := resTexts
 				e := strings.ReplaceAll(strings.Join(parts, ", "), "\n", " ")
-				tv := dinfo.Types[x.Results[0]]
-				if len(x.Results) > 1 {
-					tv = types.TypeAndValue{} // the tested variable is read back from the assignment
-				}
+				var tv types.TypeAndValue
+				if len(x.Results) == 1 {
+					tv = dinfo.Types[x.Results[0]]
+				} // otherwise the tested variable is read back from the assignment
 				var sb strings.Builder
 				sb.WriteString("{ ")
 				if contAssign {
@@ -1259,6 +1259,7 @@ func (p *Program) inlineAt(cs *CallSite, cand *inlineCand, tag string, read func
 				}
 				sb.WriteString(strings.Join(rnames, ", ") + " = " + strings.ReplaceAll(strings.Join(parts, ", "), "\n", " ") + "; ")
 			} else if nres > 0 && !named {
+				extraFail = true
 				return textEdit{}, false, true
 			}
 			sb.WriteString(dtext)
